@@ -21,8 +21,8 @@ SRC_CLIENT = "vgi_rpc/rpc/_client.py"
 
 CMP = {ast.Lt: "lt", ast.LtE: "le", ast.Gt: "gt", ast.GtE: "ge", ast.Eq: "eq", ast.NotEq: "ne"}
 
-RULE_FIXED = ("self._opened and (self._stream_leaked or last is None or (not last._drained))",
-              "self._opened and (self._stream_leaked or last is None or not last._drained)")
+RULE_FIXED = ("self._stream_opened and (self._stream_leaked or last is None or (not last._drained))",
+              "self._stream_opened and (self._stream_leaked or last is None or not last._drained)")
 RULE_LEGACY = ("self._stream_opened and (self._last_stream_session is None or (not self._last_stream_session._closed))",
                "self._stream_opened and (self._last_stream_session is None or not self._last_stream_session._closed)")
 
@@ -375,40 +375,59 @@ def analyse_pool(text: str) -> dict:
     if rule is None:
         raise ValueError("_PooledTransport.close: `stream_abandoned = …` not found")
     last_alias = any(u(s) == "last = self._last_stream_session" for s in cl)
+    rule_intr = False
+    for pre in ("self._interrupted or ",):
+        if rule.startswith(pre):
+            rule_intr = True
+            rule = rule[len(pre):]
+            if rule.startswith("(") and rule.endswith(")"):
+                rule = rule[1:-1]
     if rule in RULE_FIXED and last_alias:
         rule_drained, rule_leak = True, True
     elif rule in RULE_LEGACY:
         rule_drained, rule_leak = False, False
     else:
         raise ValueError(f"_PooledTransport.close: unknown abandoned-stream rule `{rule}`")
-    # the leak flag is set by the `_stream_opened` setter: a stream request sent while the last session is not drained
-    setter = next(
-        (n for n in pt.body if isinstance(n, ast.FunctionDef) and n.name == "_stream_opened"
-         and any(u(d).endswith(".setter") for d in n.decorator_list)),
-        None,
-    )
-    getter = next(
-        (n for n in pt.body if isinstance(n, ast.FunctionDef) and n.name == "_stream_opened"
+    # the leak flag is set by the `writer` property (fetched once per call, to send the request): a request sent while
+    # the last session is not drained
+    wprop = next(
+        (n for n in pt.body if isinstance(n, ast.FunctionDef) and n.name == "writer"
          and any(u(d) == "property" for d in n.decorator_list)),
         None,
     )
     setter_ok = False
-    if setter is not None and getter is not None:
-        sb = _strip_logs(_body(setter))
+    if wprop is not None:
+        sb = _strip_logs(_body(wprop))
         setter_ok = (
-            [u(x) for x in _body(getter)] == ["return self._opened"]
-            and len(sb) == 3
+            len(sb) == 3
             and u(sb[0]) == "last = self._last_stream_session"
             and isinstance(sb[1], ast.If)
-            and u(sb[1].test) in ("value and last is not None and (not last._drained)", "value and last is not None and not last._drained")
+            and u(sb[1].test) in ("last is not None and (not last._drained)", "last is not None and not last._drained")
             and [u(x) for x in sb[1].body] == ["self._stream_leaked = True"]
             and not sb[1].orelse
-            and u(sb[2]) == "self._opened = value"
+            and u(sb[2]) == "return self._inner.writer"
         )
         leaks = [n for n in ast.walk(pt) if isinstance(n, ast.Assign) and u(n.targets[0]) == "self._stream_leaked"]
         setter_ok = setter_ok and sorted(u(n.value) for n in leaks) == ["False", "True"]  # never reset after __init__
     out["ruleDrained"] = rule_drained
     out["trackLeak"] = bool(rule_leak and setter_ok)
+    # `_interrupted`: in the rule, set (only) by connect() when the block is left by a non-Exception BaseException
+    intr_writes = [(fn.name, u(n.value)) for cls_ in (pt, wp) for fn in _fns(cls_).values() for n in ast.walk(fn)
+                   if isinstance(n, ast.Assign) and u(n.targets[0]).endswith("._interrupted")]
+    conn_ok = False
+    for n in ast.walk(f["connect"]):
+        if isinstance(n, ast.Try) and [u(x) for x in n.body] == ["yield proxy"] and len(n.handlers) == 1:
+            h = n.handlers[0]
+            hb = _strip_logs(h.body)
+            conn_ok = (
+                u(h.type) == "BaseException"
+                and len(hb) == 2
+                and isinstance(hb[0], ast.If)
+                and u(hb[0].test) == "not isinstance(exc, Exception)"
+                and [u(x) for x in hb[0].body] == ["pooled._interrupted = True"]
+                and u(hb[1]) == "raise"
+            )
+    out["trackInterrupt"] = bool(rule_intr and conn_ok and sorted(intr_writes) == [("__init__", "False"), ("connect", "True")])
     ok = (
         len(cl) >= 4
         and isinstance(cl[0], ast.If)
@@ -513,12 +532,17 @@ capacity test (nothing is appended on it) -/
 def zeroDiscards : Bool := {_b(a["zeroDiscards"])}
 
 /-- the abandoned-stream rule of `_PooledTransport.close` is
-`self._opened and (self._stream_leaked or last is None or not last._drained)` (and not the rule over `_closed`) -/
+`[self._interrupted or] self._stream_opened and (self._stream_leaked or last is None or not last._drained)` (and not the
+rule over `_closed`) -/
 def ruleDrained : Bool := {_b(a["ruleDrained"])}
 
-/-- … it includes `_stream_leaked`, which the `_stream_opened` setter sets (and nothing resets) when a stream request is
-sent while the last session is not drained -/
+/-- … it includes `_stream_leaked`, which the `writer` property (fetched by the client proxy once per call, to send the
+request) sets — and nothing resets — when the last session is not drained -/
 def trackLeak : Bool := {_b(a["trackLeak"])}
+
+/-- the rule starts with `self._interrupted or …`, and `connect()` sets `_interrupted` (only) when the `with` block is left
+by a `BaseException` that is not an `Exception` -/
+def trackInterrupt : Bool := {_b(a["trackInterrupt"])}
 
 /-- `_borrow`: one `with self._lock:` doing `_borrows += 1; _active += 1; dq = self._idle.get(key); if dq: entry = dq.pop();
 if not dq: del …; health check `proc.poll() is not None` → discard and fall through | else `return transport``; then the
